@@ -53,9 +53,19 @@ Is(name) == l <= Len(TraceLog) /\ Ev.ev = name
 Consume == l' = l + 1 /\ UNCHANGED sid
 Quiet == todo = <<>>
 
-(* a module step that writes to the terminal or is driven by fzf's own timer *)
+(* the `exit` event of the life being validated (looked up ahead: only commands that left something behind need to   *)
+(* be hypothesised when an exit raced with their start)                                                              *)
+RECURSIVE ExitOf(_)
+ExitOf(i) == IF i > Len(TraceLog) THEN [kinds |-> <<>>, temps |-> <<>>]
+             ELSE IF TraceLog[i].ev = "exit" THEN TraceLog[i] ELSE ExitOf(i + 1)
+LeftBehind(k) == LET x == ExitOf(l) IN \/ \E i \in 1..Len(x.kinds) : x.kinds[i] = k
+                                        \/ \E j \in 1..Len(x.temps) : x.temps[j] \in {k, "none"}
+
+(* a module step that writes to the terminal or is driven by fzf's own timer.  A step that writes is taken when the  *)
+(* first thing it writes is the next thing in the stream (the stream decides; nothing is guessed ahead of it).       *)
 TAct == /\ l <= Len(TraceLog) /\ Ev.ev # "start" /\ Quiet
-        /\ \/ RInit \/ Flush \/ BgPause \/ Continue
+        /\ \/ RInit \/ BgPause \/ Continue
+           \/ Flush /\ TrackedOf(queued) # <<>>
            \/ \E n \in TempCounts : StartChild("execute", n)
            \/ ChildExit("execute")
            \/ ChildExit("silent")             \* the driver sees the command gone only later
@@ -63,9 +73,8 @@ TAct == /\ l <= Len(TraceLog) /\ Ev.ev # "start" /\ Quiet
            \* an exit racing with a command the driver just asked for: the command may have been started (and its
            \* files created) without the driver having seen it
            \/ /\ pending # {}
-              /\ \/ \E k \in Cmds \cap {"preview", "reload"}, n \in TempCounts : StartChild(k, n)
-                 \/ \E k \in {"preview", "reload"} : ChildExit(k)
-                 \/ \E f \in temps : RemoveTemp(f)
+              /\ \E k \in Cmds \cap {"preview", "reload"}, n \in TempCounts : LeftBehind(k) /\ StartChild(k, n)
+        /\ out' # <<>> => Ev.ev = "mode" /\ Ev.m \in Tracked /\ Head(out') = Op(Ev.m, Ev.on)
         /\ todo' = out'
         /\ UNCHANGED <<l, sid, tscr, other>>
 
